@@ -30,33 +30,34 @@ def judge_c09(res):
     gold = res["proj"]["gold_ir"]
     if run["exception"] is not None:
         return [{"target": "*", "what": "sync raised %s" % run["exception"], "facts": facts_of(scn, None)}]
-    for k in scn["targets"]:
-        fname = res["paths"][k]
+    for tk in scn["targets"]:
+        k = L.kind_of(tk)
+        fname = res["paths"][tk]
         name = scn["names"][k]
-        fx = facts_of(scn, k)
+        fx = facts_of(scn, tk)
         if fname not in snap:
-            out.append({"target": k, "what": "target file does not exist after sync", "facts": fx})
+            out.append({"target": tk, "what": "target file does not exist after sync", "facts": fx})
             continue
         tree = _parse_or_none(snap[fname])
         if tree is None:
-            out.append({"target": k, "what": "target file does not parse after sync", "facts": fx})
+            out.append({"target": tk, "what": "target file does not parse after sync", "facts": fx})
             continue
         node = located(tree, name)
         if node is None:
-            out.append({"target": k, "what": "definition %s not found at its location after sync" % name, "facts": fx})
+            out.append({"target": tk, "what": "definition %s not found at its location after sync" % name, "facts": fx})
             continue
         want = ast.ClassDef if k == "class" else ast.FunctionDef
         if not isinstance(node, want):
-            out.append({"target": k, "what": "definition at %s is a %s" % (name, type(node).__name__), "facts": fx})
+            out.append({"target": tk, "what": "definition at %s is a %s" % (name, type(node).__name__), "facts": fx})
             continue
         try:
             got = L.parse_def(k, node)
         except Exception as e:  # noqa
-            out.append({"target": k, "what": "parsing the synchronised definition raised %s" % type(e).__name__, "facts": fx})
+            out.append({"target": tk, "what": "parsing the synchronised definition raised %s" % type(e).__name__, "facts": fx})
             continue
-        d = iface.same_interface(gold, got)
+        d = iface.same_interface(gold, got, check_returns=not scn.get("with_returns"))
         if d:
-            out.append({"target": k, "what": "interface differs from the truth: " + "; ".join(d[:3]), "facts": fx})
+            out.append({"target": tk, "what": "interface differs from the truth: " + "; ".join(d[:3]), "facts": fx})
     return out
 
 
@@ -69,33 +70,34 @@ def judge_c10(res):
         before, after = res["snaps"][i], res["snaps"][i + 1]
         fx = facts_of(scn, None, run_index=i)
         if before.get(truth_file) != after.get(truth_file):
-            out.append({"target": scn["truth"], "what": "truth file modified by run %d" % i, "facts": fx})
-        extra = set(after) - set(before) - {res["paths"][k] for k in L.KINDS}
+            out.append({"target": scn["truth"], "what": "truth file modified by run %d" % i, "facts": fx, "kind": "truth-modified"})
+        extra = set(after) - set(before) - set(res["paths"].values())
         if extra:
-            out.append({"target": "*", "what": "unexpected files created: %s" % sorted(extra), "facts": fx})
+            out.append({"target": "*", "what": "unexpected files created: %s" % sorted(extra), "facts": fx, "kind": "extra-files"})
         if i >= 1 and res["runs"][0]["exception"] is None:
             for f in sorted(set(before) | set(after)):
                 if before.get(f) != after.get(f):
-                    k = next((kk for kk in L.KINDS if res["paths"][kk] == f), None)
+                    k = next((kk for kk in res["paths"] if res["paths"][kk] == f), None)
                     out.append({"target": k or f, "what": "run %d changed %s again (sync is not idempotent)" % (i, f),
-                                "facts": facts_of(scn, k, run_index=i)})
+                                "facts": facts_of(scn, k, run_index=i), "kind": "again1" if i == 1 else "again2+"})
         if run["exception"] is None and run["result"] is not None:
             for f, flag in run["result"]:
                 changed = before.get(f) != after.get(f)
                 if bool(flag) != changed:
-                    k = next((kk for kk in L.KINDS if res["paths"][kk] == f), None)
+                    k = next((kk for kk in res["paths"] if res["paths"][kk] == f), None)
                     out.append({"target": k or f, "what": "run %d reported %s for %s but bytes %s" % (
                         i, "changed" if flag else "unchanged", f, "changed" if changed else "did not change"),
-                        "facts": facts_of(scn, k, run_index=i)})
+                        "facts": facts_of(scn, k, run_index=i), "kind": "flag-true-bytes-same" if flag else "flag-false-bytes-changed"})
             for line in run["stdout"].splitlines():
                 if "\t" in line:
                     word, p = line.split("\t", 1)
                     f = os.path.basename(p)
                     changed = before.get(f) != after.get(f)
                     if (word == "modified") != changed:
-                        k = next((kk for kk in L.KINDS if res["paths"][kk] == f), None)
+                        k = next((kk for kk in res["paths"] if res["paths"][kk] == f), None)
                         out.append({"target": k or f, "what": "run %d printed %r for %s but bytes %s" % (
-                            i, word, f, "changed" if changed else "did not change"), "facts": facts_of(scn, k, run_index=i)})
+                            i, word, f, "changed" if changed else "did not change"), "facts": facts_of(scn, k, run_index=i),
+                            "kind": "print-modified-bytes-same" if word == "modified" else "print-unchanged-bytes-changed"})
     return out
 
 
@@ -125,17 +127,18 @@ def _masked_dump(tree, name):
 
 def judge_c11(res):
     """every run that changes a target file preserves all other statements/siblings in order, and the file parses"""
-    scn, out = res["scn"], []
+    scn, out = res["scn"], judge_bodies(res)
     for i, run in enumerate(res["runs"]):
         before, after = res["snaps"][i], res["snaps"][i + 1]
-        for k in scn["targets"]:
-            f = res["paths"][k]
+        for tk in scn["targets"]:
+            k = L.kind_of(tk)
+            f = res["paths"][tk]
             if before.get(f) == after.get(f) or f not in after:
                 continue
-            fx = facts_of(scn, k, run_index=i)
+            fx = facts_of(scn, tk, run_index=i)
             new = _parse_or_none(after[f])
             if new is None:
-                out.append({"target": k, "what": "rewritten file does not parse (run %d)" % i, "facts": fx})
+                out.append({"target": tk, "what": "rewritten file does not parse (run %d)" % i, "facts": fx, "kind": "no-parse"})
                 continue
             if f not in before or not before[f].strip():
                 continue
@@ -150,8 +153,43 @@ def judge_c11(res):
             if a != b:
                 # find the first difference
                 j = next((j for j, (x, y) in enumerate(zip(a, b)) if x != y), min(len(a), len(b)))
-                out.append({"target": k, "what": "other statements not preserved (run %d): %d vs %d items, first difference at %d: %s | %s" % (
-                    i, len(a), len(b), j, (a[j][:80] if j < len(a) else "-"), (b[j][:80] if j < len(b) else "-")), "facts": fx})
+                only_doc = (len(a) == len(b) and a[1:] == b[1:] and ast.get_docstring(old) is not None
+                            and ast.get_docstring(new) is not None)
+                out.append({"target": tk, "what": "other statements not preserved (run %d): %d vs %d items, first difference at %d: %s | %s" % (
+                    i, len(a), len(b), j, (a[j][:80] if j < len(a) else "-"), (b[j][:80] if j < len(b) else "-")), "facts": fx,
+                    "kind": "module-docstring-only" if only_doc else "statements"})
+    return out
+
+
+def judge_bodies(res):
+    """statements of the truth function's body survive in a function target of the same name and type"""
+    scn, out = res["scn"], []
+    if scn.get("body") is None or scn["truth"] != "function" or res["runs"][0]["exception"] is not None:
+        return out
+    snap = res["snaps"][1]
+    ttree = _parse_or_none(snap[res["paths"]["function"]])
+    tnode = located(ttree, scn["names"]["function"]) if ttree else None
+    if tnode is None:
+        return out
+    tbody = [ast.dump(x) for x in tnode.body[1:]] if ast.get_docstring(tnode) is not None else [ast.dump(x) for x in tnode.body]
+    # the truth itself must keep its body
+    before = _parse_or_none(res["snaps"][0][res["paths"]["function"]])
+    bnode = located(before, scn["names"]["function"]) if before else None
+    if bnode is not None:
+        bbody = [ast.dump(x) for x in bnode.body[1:]] if ast.get_docstring(bnode) is not None else [ast.dump(x) for x in bnode.body]
+        if bbody != tbody:
+            out.append({"target": "function", "what": "body of the truth function changed", "facts": facts_of(scn, None), "kind": "body"})
+    for tk in scn["targets"]:
+        if L.kind_of(tk) != "function" or "#" not in tk:
+            continue
+        tr = _parse_or_none(snap.get(res["paths"][tk], b""))
+        n2 = located(tr, scn["names"]["function"]) if tr else None
+        if n2 is None:
+            continue      # location failures are C09's business
+        b2 = [ast.dump(x) for x in (n2.body[1:] if ast.get_docstring(n2) is not None else n2.body)]
+        if b2 != tbody:
+            out.append({"target": tk, "what": "statements of the synchronised function's body were not carried verbatim: %s vs %s" % (
+                [x[:60] for x in tbody][:3], [x[:60] for x in b2][:3]), "facts": facts_of(scn, tk), "kind": "body"})
     return out
 
 
@@ -159,7 +197,7 @@ def facts_of(scn, k, run_index=0):
     """the scenario descriptor the Coq classifier works on"""
     t = scn["targets"].get(k) if k else None
     return {"truth": scn["truth"], "kind": k, "pre": t["pre"] if t else None,
-            "method": bool(k == "function" and "." in scn["names"]["function"]),
+            "method": bool(k and L.kind_of(k) == "function" and "." in scn["names"]["function"]),
             "truth_is_method": bool(scn["truth"] == "function" and "." in scn["names"]["function"]),
             "n_sur": t["n_sur"] if t else 0, "members": t["members"] if t else 0,
             "position": t["position"] if t else None, "trailing_newline": t["trailing_newline"] if t else True,
